@@ -30,7 +30,7 @@ META = {
     'trusted_base': ['CPython ast', 'txsa.sym interpreter'],
     'assumptions': ['a raised exception in an accessor becomes an error '
                     'reply (C10-D3)'],
-    'decided': ['D1 access tables', 'D2 emission guard',
+    'decided': ['D1 access tables (GetAll leaves out a readable property only if it was collected already - never because of its value)', 'D2 emission guard',
                 'D3 Get/GetAll typing agreement',
                 'D4 exhaustive aggregation / continuing lookup',
                 'D5 one storage key, accessors use the descriptor; the '
@@ -350,6 +350,39 @@ def run(ctx):
                            nontrivial=False)
                     if kind(e[3]) == 'call' and _table_of(e[3][2], bp.cond):
                         typed_getall = _table_of(e[3][2], bp.cond)[0]
+            # a readable property that was not collected yet is skipped for
+            # no other reason (its VALUE - 0, '', [] are values - in particular)
+            for bp, lev in _all_body_paths(ev):
+                if any(e[0] == 'setsub' for e in bp.trace):
+                    continue
+                acc = {t for c, _ in bp.cond for t in walk_term(c)
+                       if is_access(t)}
+                if not acc:
+                    continue
+                at = next(iter(acc))
+                if not any(feasible(bp.cond, at, a) for a in ACCESS
+                           if a != 'write'):
+                    continue
+                if bp.outcome == 'raise':
+                    continue
+                collected = any(
+                    kind(c) == 'cmp' and c[1] in ('in', 'not in') and
+                    contains(c[2], lambda x: kind(x) == 'attr' and
+                             x[2] == 'pname') and ((c[1] == 'in') == pol)
+                    for c, pol in bp.cond)
+                only_write = not any(
+                    feasible(bp.cond, at, a) for a in ACCESS
+                    if a != 'write')
+                if collected or only_write:
+                    continue
+                why = [term_str(c)[:50] for c, pol in bp.cond
+                       if not any(is_access(t) for t in walk_term(c))]
+                ctx.ob('C17.D1', gfi.qualname,
+                       'getall:readable-skipped-only-if-collected', False,
+                       'GetAll leaves out a readable property that was not '
+                       'collected yet, on the path where %s: a property '
+                       'whose value is 0, False, \'\' or empty is a '
+                       'readable property' % (why[-2:] or '?'))
             for a, outs in table.items():
                 want = a != 'write'
                 # include: some feasible path stores it (others may skip it
